@@ -279,7 +279,7 @@ theorem pullLoop_eq_pull (pred : Id → Bool) (fuel : Nat) (s : State)
           simp
         | some hh =>
           by_cases hp : pred hh.id = true
-          · simp [pullLoop, pollUnder, pull, matches_, wf, hd, hp]
+          · simp [pullLoop, pollUnder, pull, matches_, hd, hp]
           · simp only [pullLoop, pollUnder, pull, matches_, wf, hd, hp]
             rw [ih _ (by simpa using hlen)]
             simp
@@ -516,5 +516,190 @@ theorem runRecv_start (id : Id) (ttl k : Nat) (s : State) :
   · rfl
   · rfl
   · exact runRecv_waiting _ _ _ _ _
+
+/-! ## per-call conservation -/
+
+theorem count_filter_split (p : Bytes → Bool) (l : List Bytes) (a : Bytes) :
+    List.count a l = List.count a (l.filter p) + List.count a (l.filter (fun x => !p x)) := by
+  have := (List.filter_append_perm p l).count_eq a
+  rw [List.count_append] at this
+  omega
+
+/-- conservation across a pull phase -/
+theorem Pulled.conserve {pred : Id → Bool} {s s' : State} {o : Outcome} (h : Pulled pred s s' o) :
+    s.script = consumedBy s s' ++ s'.script ∧
+    (msgsOf (consumedBy s s') ++ s.buf).Perm
+      ((got? o).toList ++ (msgsOf (consumedBy s s')).filter (fun m => !wf m) ++ s'.buf) := by
+  obtain ⟨c0, h1, _, _, h4, _, h6⟩ := h
+  have hc : consumedBy s s' = c0 ++ tailOf o := consumedBy_eq h1
+  rw [hc]
+  refine ⟨h1, ?_⟩
+  rw [msgsOf_append, msgsOf_tailOf, h4]
+  have hg : (got? o).toList.filter (fun m => !wf m) = [] := by
+    cases o with
+    | got m => simp [got?, matches_wf (h6 m rfl)]
+    | none_ => rfl
+    | cancelled => rfl
+  rw [List.filter_append, hg, List.perm_iff_count]
+  intro a
+  have := count_filter_split wf (msgsOf c0) a
+  simp only [List.count_append, List.append_nil]
+  omega
+
+/-- what `k` polls of a fresh `wait_for(pred)` future do: either nothing at all (`k = 0`), or the
+    buffered-first case, or a pull phase with no buffered match -/
+theorem runWaitFor_start_cases (pred : Id → Bool) (k : Nat) (s : State) :
+    (k = 0 ∧ runWaitFor pred k .start s = (s, .cancelled)) ∨
+    (1 ≤ k ∧ ∃ i, ∃ hi : i < s.buf.length, findIdx pred s.buf 0 = some i ∧
+        runWaitFor pred k .start s = ({ s with buf := swapRemove s.buf i }, .got s.buf[i])) ∨
+    (1 ≤ k ∧ (∀ x ∈ s.buf, matches_ pred x = false) ∧
+        runWaitFor pred k .start s = runWaitFor pred k .pulling s) := by
+  cases k with
+  | zero => exact Or.inl ⟨rfl, rfl⟩
+  | succ k =>
+    right
+    cases hf : findIdx pred s.buf 0 with
+    | none =>
+      have hb := findIdx_eq_none.mp hf
+      exact Or.inr ⟨by omega, hb, runWaitFor_start_miss pred _ s hb⟩
+    | some i =>
+      obtain ⟨hi, _, _⟩ := findIdx_zero_some.mp hf
+      exact Or.inl ⟨by omega, i, hi, rfl, runWaitFor_start_hit pred k s i hi hf⟩
+
+theorem runWaitFor_start_conserve (pred : Id → Bool) (k : Nat) (s : State) :
+    s.script = consumedBy s (runWaitFor pred k .start s).1 ++ (runWaitFor pred k .start s).1.script ∧
+    (msgsOf (consumedBy s (runWaitFor pred k .start s).1) ++ s.buf).Perm
+      ((got? (runWaitFor pred k .start s).2).toList ++
+        (msgsOf (consumedBy s (runWaitFor pred k .start s).1)).filter (fun m => !wf m) ++
+        (runWaitFor pred k .start s).1.buf) ∧
+    (runWaitFor pred k .start s).1.asks = s.asks := by
+  rcases runWaitFor_start_cases pred k s with ⟨_, h⟩ | ⟨_, i, hi, _, h⟩ | ⟨_, _, h⟩
+  · rw [h]; simp [consumedBy_self, got?, msgsOf]
+  · rw [h]
+    have hc : consumedBy s { s with buf := swapRemove s.buf i } = [] := consumedBy_eq (c := []) rfl
+    simp only [hc, got?, msgsOf]
+    refine ⟨by simp, ?_, by simp⟩
+    simpa using (swapRemove_perm s.buf i hi).symm
+  · rw [h]
+    have hp := runWaitFor_pulling_pulled pred k s
+    obtain ⟨_, _, _, _, _, ha, _⟩ := id hp
+    exact ⟨hp.conserve.1, hp.conserve.2, ha⟩
+
+theorem delivered_cons (o : Outcome) (os : List Outcome) :
+    delivered (o :: os) = (got? o).toList ++ delivered os := by
+  cases o <;> simp [delivered, List.filterMap_cons, got?]
+
+/-- **per-call conservation**: the frames pulled by the call plus the old buffer are, as a
+    multiset, what the call returned plus what it dropped plus the new buffer -/
+theorem call_conserve (s : State) (c : Call) :
+    s.script = consumedBy s (call s c).1 ++ (call s c).1.script ∧
+    (msgsOf (consumedBy s (call s c).1) ++ s.buf).Perm
+      ((got? (call s c).2).toList ++ droppedBy s c ++ (call s c).1.buf) := by
+  cases c with
+  | waitFor ids k =>
+    have := runWaitFor_start_conserve (fun x => ids.contains x) k s
+    exact ⟨this.1, this.2.1⟩
+  | recv id ttl k =>
+    cases k with
+    | zero => simp [call, runRecv, droppedBy, consumedBy_self, got?, msgsOf]
+    | succ k =>
+      have h := runWaitFor_start_conserve (fun x => x == id) (k + 1)
+        { s with asks := s.asks ++ [(id, ttl)] }
+      have e : call s (.recv id ttl (k + 1)) =
+          runWaitFor (fun x => x == id) (k + 1) .start { s with asks := s.asks ++ [(id, ttl)] } :=
+        runRecv_start id ttl k s
+      simp only [droppedBy, e]
+      exact ⟨h.1, h.2.1⟩
+  | next =>
+    obtain ⟨buf, script, asks⟩ := s
+    simp only [call, pollNext, droppedBy]
+    cases hl : buf.getLast? with
+    | some m =>
+      obtain ⟨ys, rfl⟩ := List.getLast?_eq_some_iff.mp hl
+      have hc : consumedBy ⟨ys ++ [m], script, asks⟩ ⟨(ys ++ [m]).dropLast, script, asks⟩ = [] :=
+        consumedBy_eq (c := []) rfl
+      simp only [hc, got?, msgsOf]
+      refine ⟨rfl, ?_⟩
+      simp
+    | none =>
+      have hb : buf = [] := List.getLast?_eq_none_iff.mp hl
+      subst hb
+      cases script with
+      | nil => simp [pollUnder, consumedBy_self, got?, msgsOf]
+      | cons e rest =>
+        have hc : consumedBy ⟨[], e :: rest, asks⟩ ⟨[], rest, asks⟩ = [e] :=
+          consumedBy_eq (c := [e]) rfl
+        cases e <;> simp [pollUnder, hc, got?, msgsOf]
+
+/-- the recorded asks: `recv` polled at least once appends its ASK, nothing else touches them -/
+theorem call_asks (s : State) (c : Call) : (call s c).1.asks = s.asks ++ asksOf [c] := by
+  cases c with
+  | waitFor ids k =>
+    have := (runWaitFor_start_conserve (fun x => ids.contains x) k s).2.2
+    simp only [call, asksOf, List.append_nil]
+    exact this
+  | recv id ttl k =>
+    cases k with
+    | zero => simp [call, runRecv, asksOf]
+    | succ k =>
+      have h := runWaitFor_start_conserve (fun x => x == id) (k + 1)
+        { s with asks := s.asks ++ [(id, ttl)] }
+      have e : call s (.recv id ttl (k + 1)) =
+          runWaitFor (fun x => x == id) (k + 1) .start { s with asks := s.asks ++ [(id, ttl)] } :=
+        runRecv_start id ttl k s
+      rw [e, h.2.2]
+      simp [asksOf]
+  | next =>
+    obtain ⟨buf, script, asks⟩ := s
+    simp only [call, pollNext, asksOf]
+    cases hl : buf.getLast? with
+    | some m => simp
+    | none => cases script with
+      | nil => simp [pollUnder]
+      | cons e rest => cases e <;> simp [pollUnder]
+
+theorem asksOf_cons (c : Call) (cs : List Call) : asksOf (c :: cs) = asksOf [c] ++ asksOf cs := by
+  cases c with
+  | recv id ttl k => cases k <;> simp [asksOf]
+  | waitFor ids k => simp [asksOf]
+  | next => simp [asksOf]
+
+/-- the buffer only ever holds frames that were buffered before or are well-formed -/
+theorem call_buf_mem (s : State) (c : Call) :
+    ∀ x ∈ (call s c).1.buf, x ∈ s.buf ∨ wf x = true := by
+  have hw : ∀ (pred : Id → Bool) (k : Nat) (s : State),
+      ∀ x ∈ (runWaitFor pred k .start s).1.buf, x ∈ s.buf ∨ wf x = true := by
+    intro pred k s x hx
+    rcases runWaitFor_start_cases pred k s with ⟨_, h⟩ | ⟨_, i, hi, _, h⟩ | ⟨_, _, h⟩
+    · rw [h] at hx; exact Or.inl hx
+    · rw [h] at hx; exact Or.inl (mem_of_mem_swapRemove hi hx)
+    · rw [h] at hx
+      obtain ⟨c0, _, _, _, h4, _, _⟩ := runWaitFor_pulling_pulled pred k s
+      rw [h4, List.mem_append, List.mem_filter] at hx
+      rcases hx with hx | hx
+      · exact Or.inl hx
+      · exact Or.inr hx.2
+  cases c with
+  | waitFor ids k => exact hw _ k s
+  | recv id ttl k =>
+    cases k with
+    | zero => intro x hx; exact Or.inl hx
+    | succ k =>
+      have e : call s (.recv id ttl (k + 1)) =
+          runWaitFor (fun x => x == id) (k + 1) .start { s with asks := s.asks ++ [(id, ttl)] } :=
+        runRecv_start id ttl k s
+      rw [e]
+      exact hw _ _ _
+  | next =>
+    obtain ⟨buf, script, asks⟩ := s
+    simp only [call, pollNext]
+    cases hl : buf.getLast? with
+    | some m => intro x hx; exact Or.inl (List.dropLast_subset _ hx)
+    | none =>
+      have hb : buf = [] := List.getLast?_eq_none_iff.mp hl
+      subst hb
+      cases script with
+      | nil => simp [pollUnder]
+      | cons e rest => cases e <;> simp [pollUnder]
 
 end SlVerif.Buffered
